@@ -29,7 +29,7 @@ theorem ref_scope (fuel : Nat) (st : State) (σ : Scope) (scopes : List String) 
 /-- `%name` is an evaluated reference to the macro configurable under the scope `name`. -/
 theorem macro_is_scoped_ref (fuel : Nat) (st : State) (σ : Scope) (name : String) :
     evalVal (fuel + 1) st σ (.macro name) =
-      callCfg fuel st State.macroSel (if name.isEmpty then [] else name.splitOn "/") [] [] := by
+      callCfg fuel st State.macroSel (if name.isEmpty then [] else splitChar name '/') [] [] := by
   simp [evalVal]
 
 /-- The values a consuming call evaluates are exactly `toEvaluate`: a binding for a parameter the
